@@ -1,9 +1,9 @@
 ------------------------ MODULE MpdSignal_Trace ------------------------
 (* (V) for X01: validates what harness/drive/x01 recorded from the real livesim2 server against MpdSignalOps.
    Events:
-     cfg  {id, asset, mode, parts ([k, c] as enumerated by MpdSignal.tla),
+     hdr  {id, asset, mode, parts ([k, c] as enumerated by MpdSignal.tla),
            c     the concrete configuration record as constructed by the driver (MpdSignalOps.NoCfg fields),
-           e     [mode, segMin, segMax, vas, vodId, vodUtc, host, url] - ground truth: request host and path parts, the
+           e     [mode, segMin, segMax, vas, vodId, vodUtc, host, url, drmScheme] - ground truth: request host and path parts, the
                  driver's own reading of the VoD MPD and of the VoD segments}
      sig  {id, t, now = <<s, ms>>, st (HTTP status), perr (projection error or ""), nf,
            facts  the facts <<per, scope, cls, as, inst, v>> of the served MPD whose cls is in MpdSignalOps.SigClasses}
@@ -23,11 +23,12 @@ ToSet(s) == { s[i] : i \in DOMAIN s }
 
 Init == l = 1 /\ h = 1 /\ MonitorInit /\ TLCSet(2, 0) /\ TLCSet(3, 0) /\ TLCSet(4, 0)
 
-Cfg == /\ ev.ev = "cfg"
+Cfg == /\ ev.ev = "hdr"
        /\ Clause("hdr.admissible",
                  /\ ValidCfg(ev.c, ev.mode) /\ ev.e.mode = ev.mode
                  /\ KeysOf(ev.c) = { ev.parts[i].k : i \in DOMAIN ev.parts }
                  /\ ev.e.segMin > 0 /\ ev.e.segMin <= ev.e.segMax /\ Len(ev.e.vas) >= 1
+                 /\ (ev.c.drm # "" <=> ev.e.drmScheme # "")
                  /\ \A i \in DOMAIN ev.e.vas : ev.e.vas[i][2] \in {"video", "audio", "text", "image", "other"}
                  /\ \A i, j \in DOMAIN ev.e.vas : i # j => ev.e.vas[i][1] # ev.e.vas[j][1],
                  "configuration header")
